@@ -25,6 +25,7 @@ import Driver.ValidateOps
 import Driver.ExportOps
 import Driver.ProtoOps
 import Driver.CompResultOps
+import Driver.PchipOps
 open Lean Driver
 
 def dispatch (op : String) (j : Json) : Except String Json :=
@@ -48,6 +49,7 @@ def dispatch (op : String) (j : Json) : Except String Json :=
   | "export" => exportOp op j
   | "proto" => protoOp op j
   | "compresult" => compResultOp op j
+  | "pchip" => pchipOp op j
   | _ => .error s!"unknown op family in '{op}'"
 
 def handle (line : String) : String :=
